@@ -89,5 +89,10 @@ func checkSpecs() map[string]CheckSpec {
 		c15("HC15_Point3D"), c15("HC15_Degenerate3D"),
 	}, Explanation: "2D and 3D distance functions executed symbolically over all real ordinates of the range; sqrt as r>=0, r*r=x; results compared with division-free exact specifications.",
 		Outside: []string{"the 1e-9 relative rounding tolerance (claims are about the real-number semantics of the code)"}})
+	add(CheckSpec{Property: "C06", Harnesses: []HarnessSpec{
+		{Func: "HC06_Tokens", Pkg: "encoding/wkt", Domain: B, Covers: []string{"accepted", "rejected"}},
+		{Func: "HC06_Shapes", Pkg: "encoding/wkt", Domain: B, Covers: []string{"accepted", "rejected"}},
+	}, Explanation: "The real goyacc WKT parser, grammar actions, validators and layout stack executed on every token sequence up to the bound; the character-level lexer on arbitrary short strings.",
+		Outside: []string{"token sequences longer than the bound", "arbitrary byte strings longer than the character-level bound (covered only by composition: lexer step total + parser total on tokens)"}})
 	return m
 }
